@@ -227,6 +227,12 @@ func (pathItem *PathItem) Validate(ctx context.Context, opts ...ValidationOption
 		}
 	}
 
+	if v := pathItem.Servers; v != nil {
+		if err := v.Validate(ctx); err != nil {
+			return fmt.Errorf("invalid servers: %w", err)
+		}
+	}
+
 	return validateExtensions(ctx, pathItem.Extensions)
 }
 
